@@ -385,9 +385,18 @@ func uriEncode(input string) string {
 }
 
 func generateCanonicalQueryString(r *http.Request) string {
+	return generateCanonicalQueryStringForAuth(r, true)
+}
+
+// generateCanonicalQueryStringForAuth builds the canonical query string.
+// Only query (presigned) authentication carries its signature in the
+// X-Amz-Signature parameter, which then is not part of the signed content.
+// With header authentication every query parameter is signed, including one
+// that happens to be named X-Amz-Signature.
+func generateCanonicalQueryStringForAuth(r *http.Request, isPresigned bool) string {
 	queryStrings := []pair{}
 	for queryKey, queryValues := range r.URL.Query() {
-		if queryKey == "X-Amz-Signature" {
+		if isPresigned && queryKey == "X-Amz-Signature" {
 			continue
 		}
 		encodedQueryKey := uriEncode(queryKey)
@@ -536,7 +545,7 @@ func generateHashedPayload(r *http.Request) (*string, error) {
 func generateCanonicalRequest(r *http.Request, headersToInclude []string, isPresigned bool) (*string, error) {
 	canonicalRequest := generateCanonicalHttpMethod(r) + "\n"
 	canonicalRequest += generateCanonicalURI(r) + "\n"
-	canonicalRequest += generateCanonicalQueryString(r) + "\n"
+	canonicalRequest += generateCanonicalQueryStringForAuth(r, isPresigned) + "\n"
 	canonicalRequest += generateCanonicalHeaders(r, headersToInclude) + "\n"
 	canonicalRequest += generateSignedHeaders(r, headersToInclude) + "\n"
 
